@@ -36,8 +36,44 @@ type rsReqT struct {
 }
 
 type rsTracker struct {
-	last [2]map[uint16]*Stream
-	gen  [2]map[uint16]int
+	last  [2]map[uint16]*Stream
+	gen   [2]map[uint16]int
+	world *rsWorld
+}
+
+// syncFromWorld: an object that was created by inbound DATA and unregistered again by a deferred reset within
+// the same harness event is never seen in a.streams at a quiescent point; it is seen in the accept channel.
+// The accept channel is drained (as the application does at every quiescent point anyway) and every object
+// the application knows that is newer than the tracked one is counted as a generation.
+func (t *rsTracker) syncFromWorld(side int, sid uint16) {
+	w := t.world
+	if w == nil || w.s.assoc[side] == nil {
+		return
+	}
+	w.accept(side)
+	l := w.objs[side][sid]
+	idx := -1
+	if last := t.last[side][sid]; last != nil {
+		found := false
+		for i, o := range l {
+			if o.st == last {
+				idx, found = i, true
+			}
+		}
+		if !found {
+			return // the tracked object is not adopted by the application yet (OpenStream in progress)
+		}
+	}
+	for _, o := range l[idx+1:] {
+		t.last[side][sid] = o.st
+		t.gen[side][sid]++
+	}
+}
+
+func newRsTrackerFor(w *rsWorld) *rsTracker {
+	t := newRsTracker()
+	t.world = w
+	return t
 }
 
 func newRsTracker() *rsTracker {
@@ -114,6 +150,7 @@ func rsReqList(sb *strings.Builder, l []rsReqT) {
 
 // rsSnapshot: the projection of one association onto the model record rs_ep for stream id sid.
 func rsSnapshot(a *Association, side int, sid uint16, tr *rsTracker) rsSnap {
+	tr.syncFromWorld(side, sid)
 	a.lock.RLock()
 	defer a.lock.RUnlock()
 	var sn rsSnap
@@ -657,7 +694,14 @@ type rsTaint struct {
 }
 
 func (w *rsWorld) taint(sid uint16, ord int, key string) {
-	if t, ok := w.tainted[sid]; ok && t.ord <= ord {
+	if t, ok := w.tainted[sid]; ok {
+		if !strings.Contains(t.key, key) {
+			t.key += "+" + key // both root causes were reported on this identifier
+		}
+		if ord < t.ord {
+			t.ord = ord
+		}
+		w.tainted[sid] = t
 		return
 	}
 	w.tainted[sid] = rsTaint{ord, key}
@@ -1336,7 +1380,7 @@ func runResetScenario(t *testing.T, c rsCfg, st *rsStats) []string {
 		}
 		if rsRecorderOut.w != nil {
 			w.rec = &rsRecorder{mu: &rsRecorderOut.mu, w: rsRecorderOut.w, n: &rsRecorderOut.n, kinds: rsRecorderOut.kinds,
-				skipped: &rsRecorderOut.skipped, sids: sids, tr: newRsTracker(), world: w}
+				skipped: &rsRecorderOut.skipped, sids: sids, tr: newRsTrackerFor(w), world: w}
 			s.obs = append(s.obs, w.rec)
 		}
 		s.obs = append(s.obs, w)
@@ -1549,6 +1593,11 @@ func runResetScenario(t *testing.T, c rsCfg, st *rsStats) []string {
 		s.closeBoth()
 		fails = s.fails
 		s.report()
+		if os.Getenv("VERIF_SIMEVENTS") == "all" { // observations (SIMOBS) do not make sim.report print the history
+			for _, e := range s.events {
+				fmt.Println("  EVENT " + e)
+			}
+		}
 	})
 	return fails
 }
@@ -1738,7 +1787,7 @@ func rsScenForwardTSN(t *testing.T) {
 			w := newRsWorld(s, c.seed, st)
 			if rsRecorderOut.w != nil {
 				w.rec = &rsRecorder{mu: &rsRecorderOut.mu, w: rsRecorderOut.w, n: &rsRecorderOut.n, kinds: rsRecorderOut.kinds,
-					skipped: &rsRecorderOut.skipped, sids: []uint16{1}, tr: newRsTracker(), world: w}
+					skipped: &rsRecorderOut.skipped, sids: []uint16{1}, tr: newRsTrackerFor(w), world: w}
 				s.obs = append(s.obs, w.rec)
 			}
 			s.obs = append(s.obs, w)
@@ -1856,7 +1905,7 @@ func rsWitness(t *testing.T, label string, il int, st *rsStats, script func(s *s
 		w := newRsWorld(s, 1, st)
 		if rsRecorderOut.w != nil {
 			w.rec = &rsRecorder{mu: &rsRecorderOut.mu, w: rsRecorderOut.w, n: &rsRecorderOut.n, kinds: rsRecorderOut.kinds,
-				skipped: &rsRecorderOut.skipped, sids: []uint16{1}, tr: newRsTracker(), world: w}
+				skipped: &rsRecorderOut.skipped, sids: []uint16{1}, tr: newRsTrackerFor(w), world: w}
 			s.obs = append(s.obs, w.rec)
 		}
 		s.obs = append(s.obs, w)
